@@ -494,6 +494,75 @@ func (m *Machine) OpUnlock(t *rapid.T) {
 	}
 }
 
+// OpChangePassFault: a passphrase change whose k-th database write fails. The
+// call returns the error, the transaction is rolled back, and the current
+// passphrases are the old ones: the private one still unlocks (and the
+// attempted one does not), a fresh Open still takes the public one.
+func (m *Machine) OpChangePassFault(t *rapid.T) {
+	if m.WatchOnly {
+		return
+	}
+	private := rapid.Bool().Draw(t, "private")
+	cur := m.PubPass
+	if private {
+		cur = m.PrivPass
+	}
+	newPass := []byte("f-" + rapid.StringMatching(`[A-Za-z0-9]{1,8}`).Draw(t, "newPass"))
+	k := rapid.IntRange(1, 4).Draw(t, "failWrite")
+	m.DB.FailAt = k
+	injectedBefore := m.DB.Injected
+	err, committed := m.Tx(Commit, func(ns walletdb.ReadWriteBucket) error {
+		return m.Mgr.ChangePassphrase(ns, append([]byte(nil), cur...), newPass, private, &waddrmgr.DefaultScryptOptions)
+	})
+	m.DB.FailAt = 0
+	injected := m.DB.Injected > injectedBefore
+	m.Case.Logf("change-passphrase private=%v new=%q with write #%d failing (injected=%v) locked=%v -> %v", private, newPass, k, injected, m.Locked, err)
+	if !injected {
+		// the operation has fewer writes: it went through
+		if err != nil || !committed {
+			m.Violation("ChangePassphrase(private=%v) with the right old passphrase failed: %v", private, err)
+		}
+		if private {
+			m.PrivPass = newPass
+		} else {
+			m.PubPass = newPass
+		}
+		return
+	}
+	if err == nil {
+		m.Violation("write #%d of ChangePassphrase(private=%v) failed but the call reported success", k, private)
+	}
+	if m.Mgr.IsLocked() != m.Locked {
+		m.Violation("a failed ChangePassphrase changed the lock state: manager locked=%v, expected %v", m.Mgr.IsLocked(), m.Locked)
+	}
+	m.N["passphrase-change-write-fault"]++
+	if private {
+		var uerr error
+		m.View(func(ns walletdb.ReadBucket) { uerr = m.Mgr.Unlock(ns, append([]byte(nil), newPass...)) })
+		if uerr == nil {
+			m.Violation("after a failed private passphrase change the attempted passphrase %q unlocks", newPass)
+		}
+		m.Locked = true
+		m.afterLockTransition("failed unlock (attempted passphrase of a failed change)")
+		m.View(func(ns walletdb.ReadBucket) { uerr = m.Mgr.Unlock(ns, append([]byte(nil), m.PrivPass...)) })
+		m.Case.Logf("  unlock with the current private passphrase -> %v", uerr)
+		if uerr != nil && !(m.KnownF7 != nil && m.KnownF7(uerr)) {
+			m.Violation("after a failed (rolled-back) private passphrase change the current private passphrase no longer unlocks: %v", uerr)
+		}
+		if uerr == nil {
+			m.Locked = false
+		}
+		return
+	}
+	m.View(func(ns walletdb.ReadBucket) {
+		mgr, err := waddrmgr.Open(ns, m.PubPass, m.Params)
+		if err != nil {
+			m.Violation("after a failed (rolled-back) public passphrase change the current public passphrase no longer opens the manager: %v", err)
+		}
+		mgr.Close()
+	})
+}
+
 // OpChangePass changes the public or private passphrase.
 func (m *Machine) OpChangePass(t *rapid.T) {
 	private := rapid.Bool().Draw(t, "private")
